@@ -11,7 +11,8 @@ LEVEL = 'exploration'
 SHARDS = {'quick': 4, 'thorough': 16}
 RULE = ('State machine: the same logical recordings (category from {A, AB, A_B, A_, B, BA}; JSON-native metadata with '
         'absent keys; incomplete flag True/False/absent; a label; a class-reference value) are saved to every real '
-        'cassette (in-memory, file, S3 with prefixes "", "p", "pq", "p/q" in one bucket); lookups (category, filter, '
+        'cassette (in-memory, file, S3 with prefixes "", "p", "pq", "p/q" in one bucket); saves on the S3 cassettes may be '
+        'cut short by a storage fault after the first or second bucket write; lookups (category, filter, '
         'limit in {None,1..n+1}, ordered/random) through iter_recording_ids, iter_recordings_metadata and '
         'find_matching_recording_ids with skip_incomplete on/off run on each cassette. Oracle: reference filter model '
         '(pbt/refmatch.py) over the harness model of what was saved: no duplicates, only ids of that exact category '
@@ -57,6 +58,7 @@ class Interp(object):
         self.zoo = zoo.Zoo(kinds=('memory', 'file', 's3'), s3_prefixes=S3_PREFIXES).__enter__()
         self.model = []     # (category, metadata) by label
         self.ids = [dict() for _ in self.zoo.cassettes]   # per cassette: id -> label
+        self.maybe = [set() for _ in self.zoo.cassettes]   # per cassette: ids of saves that were cut short by a fault
         self.history = []
 
     def close(self):
@@ -78,6 +80,30 @@ class Interp(object):
             rec.add_metadata(md)
             cas.save_recording(rec)
             self.ids[i][rec.id] = label
+
+    def op_save_fault(self, op):
+        """A save on the S3 cassettes is cut short by a storage fault after its k-th bucket write (the write was
+        applied; the client sees an error or dies). Such a recording was never saved: lookup may list it only if it
+        is completely fetchable."""
+        from pbt import fakes3
+        for i, cas in enumerate(self.zoo.cassettes):
+            if self.zoo.kind(cas) != 's3':
+                continue
+            rec = cas.create_new_recording(op['cat'])
+            rec.set_data('k', 'cut-short')
+            md = dict(op['meta'])
+            md['label'] = -1
+            md['cls'] = SomeClass
+            rec.add_metadata(md)
+            self.zoo.fake.crash_after = op['k']
+            self.zoo.fake.crash_kind = op['kind']
+            try:
+                cas.save_recording(rec)
+            except (fakes3.BucketCrash, fakes3.LostResponse):
+                pass
+            finally:
+                self.zoo.fake.crash_after = None
+            self.maybe[i].add(rec.id)
 
     def op_lookup(self, op):
         from playback.tape_recorder import TapeRecorder
@@ -111,11 +137,24 @@ class Interp(object):
                                                                           random_sample=rnd, skip_incomplete=skip)))
             except Exception as e:  # pylint: disable=broad-except
                 raise Violation('%s: lookup %r raised %s: %s' % (name, op, type(e).__name__, e), 'lookup-raises')
+            cut_short_listed = False
             if got is None:
-                labels = [m.get('label') for m in mds]
+                labels = [m.get('label') for m in mds if m.get('label') != -1]
+                cut_short_listed = len(labels) != len(mds)
             else:
                 labels = []
                 for rid in got:
+                    if rid in self.maybe[i]:
+                        # a save that was cut short: listing it is only acceptable if it is completely fetchable
+                        try:
+                            cas.get_recording(rid).get_data('k')
+                            cas.get_recording_metadata(rid)
+                        except Exception as e:  # pylint: disable=broad-except
+                            raise Violation('%s: lookup %r lists %r, a recording whose save was cut short by a storage '
+                                            'fault, and it is not fetchable: %s %s' % (name, op, rid, type(e).__name__, e),
+                                            'not-fetchable')
+                        cut_short_listed = True
+                        continue
                     if rid not in self.ids[i]:
                         raise Violation('%s: lookup %r returned %r which is not an id saved in this cassette' % (
                             name, op, rid), 'foreign-id')
@@ -140,7 +179,9 @@ class Interp(object):
                     raise Violation('%s: lookup %r returned non-matching recordings %r (model %r)' % (
                         name, op, [self.model[l] for l in sorted(extra)], sorted(expected)), 'non-matching')
                 want_n = len(expected) if limit is None else min(limit, len(expected))
-                if len(labels) != want_n:
+                if cut_short_listed and limit is not None:
+                    pass    # a (fetchable) cut-short recording may take one of the limited places
+                elif len(labels) != want_n:
                     raise Violation('%s: lookup %r returned %d recordings, expected %d (matching labels %r, got %r)' % (
                         name, op, len(labels), want_n, sorted(expected), sorted(labels)), 'size')
                 if limit is None:
@@ -165,6 +206,11 @@ def make_machine(ctx):
         @rule(cat=st.sampled_from(CATEGORIES), meta=metas)
         def save(self, cat, meta):
             self.step({'op': 'save', 'cat': cat, 'meta': meta})
+
+        @rule(cat=st.sampled_from(CATEGORIES[:3]), meta=metas, k=st.sampled_from([1, 2]),
+              kind=st.sampled_from(['crash', 'lost']))
+        def save_fault(self, cat, meta, k, kind):
+            self.step({'op': 'save_fault', 'cat': cat, 'meta': meta, 'k': k, 'kind': kind})
 
         @rule(cat=st.sampled_from(CATEGORIES[:3]), meta=metas)
         def save_related(self, cat, meta):
